@@ -399,6 +399,16 @@ theorem settled_is_stable (c : Cache) (pd : PD) (k : Bytes) (hq : QuietPD pd) (h
     Settled (insertRegionToCache c q.toEntry).1 pd k ∧ ConvInv (insertRegionToCache c q.toEntry).1 pd :=
   ⟨insert_keeps_settled hq hi h hqm rfl rfl rfl, insert_convInv hq hi hqm rfl⟩
 
+/-- converges_when_quiet, several keys (e.g. one key per current region that a range request touches): driving the
+    keys one after the other costs at most ONE rejected attempt per key in total, and at the end ALL of them are settled
+    simultaneously — driving one key never unsettles another -/
+theorem converges_when_quiet_keys (c : Cache) (pd : PD) (keys : List Bytes) (fb : Feedback) (n : Nat)
+    (hq : QuietPD pd) (hi : ConvInv c pd) :
+    (∀ k ∈ keys, Settled (driveKeys n pd fb keys c 0).1 pd k) ∧ (driveKeys n pd fb keys c 0).2 ≤ keys.length ∧
+      ConvInv (driveKeys n pd fb keys c 0).1 pd := by
+  have := driveKeys_spec hq n fb keys hi 0 [] (by intro k hk; cases hk)
+  exact ⟨fun k hk => this.2.1 k (by simpa using hk), by simpa using this.2.2, this.1⟩
+
 /-- non-vacuity: a two-region layout is quiet, the empty cache and a cache holding the stale unsplit region satisfy the
     invariant, and the stale cache really needs one rejected attempt -/
 example : QuietPD pd2 ∧ ConvInv Cache.empty pd2 ∧
@@ -420,6 +430,7 @@ example : QuietPD pd2 ∧ ConvInv Cache.empty pd2 ∧
     rcases hp with rfl | rfl <;> rcases hq with rfl | rfl <;> simp <;> decide
   · intro p hp q hq; simp [pd2] at hp hq
     rcases hp with rfl | rfl <;> rcases hq with rfl | rfl <;> simp
-  · exact ⟨(by intro e he; cases he), (by intro e he; cases he), (by intro e he; cases he), (by intro x hx; cases hx)⟩
+  · exact ⟨(by intro e he; cases he), (by intro e he; cases he), (by intro e he; cases he), (by intro x hx; cases hx),
+      (by intro e he; cases he)⟩
 
 end CGV.Props.C09
